@@ -187,9 +187,27 @@ func ite(c, a, b Term) Term {
 func lenOf(s Term) Term  { return mk(SInt, "(len_%s %s)", s.Sort.sfx(), s.S) }
 func capOf(s Term) Term  { return mk(SInt, "(cap_%s %s)", s.Sort.sfx(), s.S) }
 func atOf(s, i Term) Term { return mk(s.Sort.elem(), "(at_%s %s %s)", s.Sort.sfx(), s.S, i.S) }
+// theLits: the literal table of the running verifier (for folding concatenations of literals)
+var theLits *LitTable
+
+// seqLit: sequences whose elements are all known terms (composite literals), by term text
+var seqLit = map[string][]Term{}
+
 func catOf(a, b Term) Term {
 	if a.S == emptyOf(a.Sort).S || a.S == nilOf(a.Sort).S {
 		return Term{S: b.S, Sort: b.Sort, GoT: a.GoT}
+	}
+	if b.S == emptyOf(b.Sort).S {
+		return a
+	}
+	if a.Sort == SBytes && theLits != nil {
+		if x, ok := theLits.content(a.S); ok {
+			if y, ok := theLits.content(b.S); ok {
+				r := theLits.Bytes(x + y)
+				r.GoT = a.GoT
+				return r
+			}
+		}
 	}
 	return Term{S: fmt.Sprintf("(cat_%s %s %s)", a.Sort.sfx(), a.S, b.S), Sort: a.Sort, GoT: a.GoT}
 }
@@ -340,10 +358,19 @@ func Prelude() string {
 
 type LitTable struct {
 	byContent map[string]string
+	byName    map[string]string
 	order     []string
 }
 
-func NewLitTable() *LitTable { return &LitTable{byContent: map[string]string{}} }
+func NewLitTable() *LitTable { return &LitTable{byContent: map[string]string{}, byName: map[string]string{}} }
+
+func (lt *LitTable) content(name string) (string, bool) {
+	if name == "empty_Y" {
+		return "", true
+	}
+	c, ok := lt.byName[name]
+	return c, ok
+}
 
 func (lt *LitTable) Bytes(s string) Term {
 	if s == "" {
@@ -355,6 +382,7 @@ func (lt *LitTable) Bytes(s string) Term {
 	h := sha1.Sum([]byte(s))
 	n := fmt.Sprintf("lit_%x", h[:6])
 	lt.byContent[s] = n
+	lt.byName[n] = s
 	lt.order = append(lt.order, s)
 	return Term{S: n, Sort: SBytes}
 }
